@@ -35,6 +35,19 @@ func main() {
 
 const storeName = "st"
 
+// hx.Session keeps the first 200 oracle failures only and the known findings of this property fire hundreds of times:
+// keep a few per signature (every one is still counted in the histogram) so that a new signature is never crowded out.
+var failsBySig = map[string]int{}
+
+func failCapped(s *hx.Session, sig, what, detail string) {
+	failsBySig[sig]++
+	if failsBySig[sig] <= 4 {
+		s.Fail(sig, what, detail)
+		return
+	}
+	s.Hit("oracle_fail:" + sig)
+}
+
 func val(c int) string { return "v" + strconv.Itoa(c) }
 func unval(s string) string {
 	if strings.HasPrefix(s, "v") {
@@ -408,7 +421,7 @@ func runCase(s *hx.Session, ctx context.Context, kind, label string, c0 int, ops
 			f := strings.Fields(out)
 			want := strconv.Itoa(cur)
 			if len(f) != 2 {
-				s.Fail("C20/read-failed", "a read produced no answer", out)
+				failCapped(s, "C20/read-failed", "a read produced no answer", out)
 				break
 			}
 			if f[0] != want {
@@ -417,9 +430,9 @@ func runCase(s *hx.Session, ctx context.Context, kind, label string, c0 int, ops
 					sig = "C20/stale-read-via-own-l1-handle-after-other-process-commit"
 					s.Hit("stale:" + o.mode + ":" + f[1])
 				}
-				s.Fail(sig, "a read returned something other than the last committed content", fmt.Sprintf("%s: got %s want %s", o.line(), out, want))
+				failCapped(s, sig, "a read returned something other than the last committed content", fmt.Sprintf("%s: got %s want %s", o.line(), out, want))
 			} else if f[1] != "ok" {
-				s.Fail("C20/fresh-read-cannot-commit", "a transaction that read the current content failed to commit", o.line()+": "+out)
+				failCapped(s, "C20/fresh-read-cannot-commit", "a transaction that read the current content failed to commit", o.line()+": "+out)
 			}
 		case "write":
 			if out == "ok" {
@@ -436,7 +449,7 @@ func runCase(s *hx.Session, ctx context.Context, kind, label string, c0 int, ops
 				if staleCtx {
 					sig = "C20/writer-blocked-by-own-stale-l1-handle"
 				}
-				s.Fail(sig, "a lone writer's commit failed", o.line()+": "+out)
+				failCapped(s, sig, "a lone writer's commit failed", o.line()+": "+out)
 			}
 		case "droph":
 			ownHandle[o.p] = false
@@ -454,7 +467,9 @@ func runCase(s *hx.Session, ctx context.Context, kind, label string, c0 int, ops
 func run(o hx.RunOpts) error {
 	s := hx.NewSession(o, "one case = one single-item store on a shared folder, two processes with separate L1 caches and one shared L2 (in-memory, or real adapters/redis client on a fake Redis; 'procs' = two real child processes), 4-15 operations: "+
 		"read (NoCheck|ForReading|ForWriting, Find+GetCurrentValue+Commit), write (Update+Commit), drop one process's node MRU or Handles cache, flush L2; every answer diffed with Sop.Model.Cache; oracle: read = last committed content and lone commits succeed. "+
-		"distinct = canonical op hash; non-trivial = at least 4 operations")
+		"distinct = canonical op hash; non-trivial = at least 4 operations. "+
+		"'si' cases (storeinfo.go): 2-4 stores, real fs StoreRepository.Update called directly or by the commit of a real multi-store transaction, with a concurrent removal / an unreadable or read-only storeinfo.txt / an eviction / a refused SetStruct at one store "+
+		"(forward pass or undo); every Add/Update replayed on Sop.Model.StoreInfoCache; after each, per store: cache-first Get/GetWithTTL == cold process == file, file restored after a failed Update, next Update's base = file, Count = items after a following commit; non-trivial = undo ran for at least one store")
 	ctx := context.Background()
 	if dbg := os.Getenv("VERIF_C20_DEBUG"); dbg != "" {
 		// "short,ttl;op;op;…" with op = "read 0 forwriting" etc.: one case, for triage
@@ -509,6 +524,9 @@ func run(o hx.RunOpts) error {
 		if err := runCase(s, ctx, kind, label, 100, gen(p, single), short, ttl); err != nil {
 			return fmt.Errorf("case %d: %w", s.CaseNo, err)
 		}
+	}
+	if err := runStoreInfo(s, ctx, hx.NewPrng(o.Seed+7777), o); err != nil {
+		return err
 	}
 	return s.Finish()
 }
